@@ -14,13 +14,16 @@ Definition C13_full : Prop := forall c, wf_case c = true -> spec_C13 c (run_C13 
    before COMMIT); every message kind has its arm, every statement group's error exit issues ROLLBACK, and so do
    the error exits of daily_log.write and of COMMIT;
    the acknowledgement loop runs on the result, Ok branch sends Ok, Err branch sends Err, on the same route;
-   the H4 points cover every group, the marks, COMMIT and the acknowledgement *)
+   the H4 points cover every group, the marks, COMMIT and the acknowledgement; the statements that exist inside the
+   multi-statement groups (InsertEntity::write, DeletionQuery::delete, the room mutation / room node writes) are
+   the expected ones with the H4b points between them, and the start-up recompute has its two points *)
 Theorem C13_skeleton_obligations : sk_ok code_skeleton = true /\ points_complete code_skeleton = true.
 Proof. exact (conj code_skeleton_ok code_points_complete). Qed.
 Print Assumptions C13_skeleton_obligations.
 
-(* (1) atomicity of a batch, for every skeleton, every fault schedule, every batch length:
-   the disk is unchanged until COMMIT; Ok => applied; Err => unchanged; killed => one of the two *)
+(* (1) atomicity of a batch, for every skeleton, every fault schedule, every batch length, every division of the
+   statement groups into statements (a request carries, per group, the list of its statements; a fault can hit in
+   front of ANY of them): the disk is unchanged until COMMIT; Ok => applied; Err => unchanged; killed => one of the two *)
 Theorem C13_atomic_holds : forall sk sched n st b st' o n' last,
   run_batch sk sched n st b = (st', o, n', last) ->
   (w_disk st' = w_disk st \/ w_disk st' = txn_body sk b (w_disk st)) /\
@@ -70,11 +73,22 @@ Theorem C13_every_schedule_outside_known : forall sk sched batches unsent d0,
 Proof. exact every_schedule. Qed.
 Print Assumptions C13_every_schedule_outside_known.
 
-(* (5) the same about the functions the harness evaluates: the oracle holds on what the model observes *)
+(* (5) the same about the functions the harness evaluates (workload runs CRun and faulty starts CRestart):
+   the oracle holds on what the model observes *)
 Theorem C13_outside_known : forall c,
   wf_case c = true -> known_C13 c = [] -> spec_C13 c (run_C13 c) = true.
 Proof. exact spec_outside_known. Qed.
 Print Assumptions C13_outside_known.
+
+(* (5b) faults during GraphDatabaseService::start, for every schedule: the start's own writes carry no row of the
+   model, so whatever is killed or fails, rows and deletion log stay as committed, the log keeps its invariant and
+   the next start's recompute makes it consistent *)
+Theorem C13_start_preserves_holds : forall sk sched sc n st lo started,
+  (forall r, In r (script_reqs sc) -> req_ops r = []) -> LogInv (w_disk st) ->
+  let r := run_script sk sched n st lo started sc in
+  data_eq (w_disk (sr_state r)) (w_disk st) /\ LogInv (w_disk (sr_state r)) /\ Consistent (restart (sr_state r)).
+Proof. exact start_preserves. Qed.
+Print Assumptions C13_start_preserves_holds.
 
 (* (6) the full statement is refuted by the faithful model (class 1: the second validation of a room
    mutation after commit); the witness is the directed case the harness replays on the real code *)
